@@ -61,6 +61,8 @@ struct C11World {
   }
   std::map<Bytes, bool> client_reject;     // client token -> response handler returns FAIL (RST)
   std::map<const coap_session_t *, simk::Addr> sess_addr;
+  std::map<const void *, ObsKey> sub_key;            // libcoap subscription -> (peer, token)
+  std::map<simk::Addr, uint64_t> last_rst_t;         // peer -> instant of the last Reset delivered to the server
 };
 C11World *g = nullptr;
 
@@ -112,6 +114,28 @@ void server_nack(coap_session_t *s, const coap_pdu_t *sent, const coap_nack_reas
     if (it != g->obs.end()) g->dereg(it->second, g->w.now(), "failed_con");
   }
 }
+
+// libcoap's own view of its registry is used for one thing only: a Reset whose mid is not one of the notifications sent
+// (e.g. the Reset of a registration answer) can still hit obs->pdu->mid, which holds a freshly allocated, never transmitted
+// mid until the first notification (1 in 65536). When libcoap reports the observer deleted in the instant such a Reset from
+// that peer was delivered, the model follows.
+int obs_added_cb(coap_session_t *session, coap_subscription_t *key, coap_proto_t, coap_address_t *, coap_addr_tuple_t *, coap_bin_const_t *raw, coap_bin_const_t *, void *) {
+  r1::Msg m;
+  if (raw && r1::decode_udp(raw->s, raw->length, m) != r1::REJECT) g->sub_key[key] = ObsKey{cx::remote_of(session), m.token};
+  return 1;
+}
+int obs_deleted_cb(coap_session_t *, coap_subscription_t *key, void *) {
+  auto it = g->sub_key.find(key);
+  if (it == g->sub_key.end()) return 1;
+  auto rt = g->last_rst_t.find(it->second.peer);
+  auto ob = g->obs.find(it->second);
+  if (rt != g->last_rst_t.end() && rt->second == g->w.now() && ob != g->obs.end() && ob->second.registered) g->dereg(ob->second, g->w.now(), "rst_mid_coincidence");
+  g->sub_key.erase(it);
+  return 1;
+}
+int obs_value_cb(coap_context_t *, coap_str_const_t *, uint32_t, void *) { return 1; }
+int dyn_added_cb(coap_session_t *, coap_str_const_t *, coap_bin_const_t *, void *) { return 1; }
+int res_deleted_cb(coap_context_t *, coap_str_const_t *, void *) { return 1; }
 
 int server_event(coap_session_t *s, const coap_event_t ev) {
   if (ev == COAP_EVENT_SERVER_SESSION_NEW) g->sess_addr[s] = cx::remote_of(s);
@@ -217,6 +241,7 @@ struct C11 : Property {
       World::AsNode as(0);
       coap_register_nack_handler(cw.sctx, server_nack);
       coap_register_event_handler(cw.sctx, server_event);
+      coap_persist_track_funcs(cw.sctx, obs_added_cb, obs_deleted_cb, obs_value_cb, dyn_added_cb, res_deleted_cb, 1, nullptr);
       int i = 0;
       for (auto &jr : cfg["resources"]) {
         std::string name = "o" + std::to_string(i);
@@ -255,6 +280,7 @@ struct C11 : Property {
         r1::Msg q;
         if (r1::decode_udp(e.d->data, q) != r1::ACCEPT) return;
         if (q.type == 3) {
+          cw.last_rst_t[e.d->src] = e.t_ns;
           // Reset in reply to a notification ends that observation
           for (auto &kv : cw.obs)
             if (kv.first.peer == e.d->src && kv.second.registered && kv.second.notif_mids.count(q.mid))
@@ -315,7 +341,8 @@ struct C11 : Property {
         } else {
           ObsState fresh;
           fresh.datagrams_seen = s.datagrams_seen;
-          fresh.notif_mids = s.notif_mids;
+          // (mids of the notifications of an earlier observation under this token are not carried over: a late Reset for one
+          //  of them does not concern the new observation)
           s = fresh;
           s.registered = true;
           s.t_registered = e.t_ns;
